@@ -75,6 +75,12 @@ fn path_write_xml(f: &GForest) -> Result<Props, String> {
 
 /// P3: a file that stores the legacy column (built from docs/binary.md), read by rbx_binary
 fn path_read_binary(f: &GForest) -> Result<Props, String> {
+    path_read_binary_with(f, 0)
+}
+
+/// `extra` > 0: the file also stores unrelated columns (names sorting before, between and after the
+/// migrating ones), so the columns do not arrive in name order - the format fixes no order.
+fn path_read_binary_with(f: &GForest, extra: u8) -> Result<Props, String> {
     let node = &f.nodes[0];
     let class = BinClass {
         id: 0,
@@ -89,7 +95,23 @@ fn path_read_binary(f: &GForest) -> Result<Props, String> {
         data: refbin::prop_chunk(0, "Name", &refbin::Column::String(vec![node.name.as_bytes().to_vec()]), Dialect::implementation()),
         comp: Comp::Lz4,
     });
-    for (pname, val) in &node.props {
+    let extra_chunk = |name: &str, v: i32| -> Result<PlannedChunk, String> {
+        let (mut a, mut b) = (0, 0);
+        let col = binbuild::build_column(VariantType::Int32, &[GVal::Int32(v)], &|_| -1, &[], false, &mut a, &mut b)?;
+        Ok(PlannedChunk { name: *b"PROP", data: refbin::prop_chunk(0, name, &col, Dialect::implementation()), comp: Comp::None })
+    };
+    match extra {
+        1 => {
+            chunks.push(extra_chunk("ZzExtraZeta", 1)?);
+            chunks.push(extra_chunk("AaExtraAlpha", 2)?);
+        }
+        3 => {
+            chunks.push(extra_chunk("MmExtraMu", 3)?);
+            chunks.push(extra_chunk("zz_extra_lower", 4)?);
+        }
+        _ => {}
+    }
+    for (k, (pname, val)) in node.props.iter().enumerate() {
         let view = dbview::resolve(&node.class, pname).ok_or("unknown property")?;
         let ser = view.ser.as_ref().ok_or("does not serialize")?;
         let (mut a, mut b) = (0, 0);
@@ -99,12 +121,21 @@ fn path_read_binary(f: &GForest) -> Result<Props, String> {
             data: refbin::prop_chunk(0, &ser.name, &col, Dialect::implementation()),
             comp: Comp::None,
         });
+        if extra == 3 && k == 0 {
+            chunks.push(extra_chunk("AaExtraAlpha", 5)?);
+        }
+    }
+    if extra == 2 {
+        chunks.push(extra_chunk("ZzExtraZeta", 6)?);
+        chunks.push(extra_chunk("AaExtraAlpha", 7)?);
     }
     chunks.push(PlannedChunk { name: *b"PRNT", data: refbin::prnt_chunk(&[(0, -1)]), comp: Comp::None });
     chunks.push(refbin::end_chunk());
     let bytes = refbin::assemble(1, 1, &chunks);
     let dom = super::c01::read_binary(&bytes).map_err(|e| e.msg)?;
-    single_props(&dom)
+    let mut props = single_props(&dom)?;
+    props.retain(|k, _| !k.contains("Extra") && !k.contains("_extra_"));
+    Ok(props)
 }
 
 /// P4: a document that stores the legacy element (built from docs/xml.md), read by rbx_xml
@@ -209,6 +240,9 @@ fn body(c: &MigCase, ctx: &mut CaseCtx) -> PropResult {
         ("write-binary", path_write_binary(&f), &expected_bin),
         ("write-xml", path_write_xml(&f), &expected_xml),
         ("read-binary", path_read_binary(&f), &expected_bin),
+        ("read-binary-unsorted-columns-1", path_read_binary_with(&f, 1), &expected_bin),
+        ("read-binary-unsorted-columns-2", path_read_binary_with(&f, 2), &expected_bin),
+        ("read-binary-unsorted-columns-3", path_read_binary_with(&f, 3), &expected_bin),
         ("read-xml", path_read_xml(&f, false), &expected_xml),
         ("read-xml-legacy-element", if legacy_content { path_read_xml(&f, true) } else { path_read_xml(&f, false) }, &expected_xml),
     ];
